@@ -48,7 +48,7 @@ def shapes(tier):
             if K == "normal" and noff:
                 continue
             out.append({"family": "junk", "nt": nt, "poly": npoly, "noff": noff, "K": K, "units": "plain", "P_unit": "day", "tref": "default", "rows": 1})
-    for N in ((1, 2, 3) if tier == "quick" else (1, 2, 3, 4)):
+    for N in ((1, 2, 3) if tier == "quick" else (1, 2, 3, 4, 5, 6)):
         for nb in [None] + list(range(1, N + 3)):
             for src in ("filename", "object", "inmem"):
                 if src == "inmem" and nb not in (None, 1):
